@@ -359,6 +359,9 @@ class LabeledDirectedGraph {
         Edges(const LabeledDirectedGraph<EdgeLabel> &graph) : graph(graph) {}
 
         constEdgeIterator begin() const {
+            if (graph.getSize() == 0)
+                return end();
+
             VertexIndex endVertex = getEndVertex(graph);
 
             VertexIndex vertexWithFirstEdge = 0;
@@ -374,10 +377,18 @@ class LabeledDirectedGraph {
             return constEdgeIterator(graph, vertexWithFirstEdge, neighbour);
         }
         constEdgeIterator end() const {
+            if (graph.getSize() == 0)
+                return constEdgeIterator(graph, 0, emptySuccessors().end());
+
             VertexIndex endVertex = getEndVertex(graph);
             return constEdgeIterator(
                 graph, endVertex, graph.getOutNeighbours(endVertex).end()
             );
+        }
+        // A graph without vertices has no neighbour list to point into.
+        static const Successors &emptySuccessors() {
+            static const Successors empty;
+            return empty;
         }
         static VertexIndex
         getEndVertex(const LabeledDirectedGraph<EdgeLabel> &graph) {
